@@ -1,1 +1,198 @@
-//! TODO
+//! Explicit DFAs over byte classes implementing fst::Automaton, with exact dead/always sets computed
+//! by graph reachability and hint assignments anywhere between exact and trivial (always sound).
+use crate::rng::Rng;
+use fst::Automaton;
+
+#[derive(Clone, Debug)]
+pub struct Dfa {
+    pub nclasses: usize,
+    /// byte -> class
+    pub cls: Vec<u8>,
+    /// trans[state][class]
+    pub trans: Vec<Vec<usize>>,
+    pub accept: Vec<bool>,
+    /// hints handed to the library (sound: can_hint >= exact can, always_hint <= exact always)
+    pub can_hint: Vec<bool>,
+    pub always_hint: Vec<bool>,
+}
+
+impl Dfa {
+    pub fn nstates(&self) -> usize {
+        self.trans.len()
+    }
+    /// class table: bytes in `sigma` get classes round-robin, every other byte gets the last class
+    pub fn class_table(sigma: &[u8], nclasses: usize) -> Vec<u8> {
+        let mut cls = vec![(nclasses - 1) as u8; 256];
+        for (i, &b) in sigma.iter().enumerate() {
+            cls[b as usize] = (i % nclasses) as u8;
+        }
+        cls
+    }
+    pub fn new(nclasses: usize, cls: Vec<u8>, trans: Vec<Vec<usize>>, accept: Vec<bool>) -> Dfa {
+        let n = trans.len();
+        let mut d = Dfa { nclasses, cls, trans, accept, can_hint: vec![true; n], always_hint: vec![false; n] };
+        d.can_hint = d.exact_can();
+        d.always_hint = d.exact_always();
+        d
+    }
+    /// exact: an accepting state is reachable in >= 0 steps
+    pub fn exact_can(&self) -> Vec<bool> {
+        let n = self.nstates();
+        let mut can = self.accept.clone();
+        loop {
+            let mut ch = false;
+            for s in 0..n {
+                if !can[s] && self.trans[s].iter().any(|&t| can[t]) {
+                    can[s] = true;
+                    ch = true;
+                }
+            }
+            if !ch {
+                break;
+            }
+        }
+        can
+    }
+    /// exact: every state reachable in >= 0 steps accepts
+    pub fn exact_always(&self) -> Vec<bool> {
+        let n = self.nstates();
+        // bad = can reach a non-accepting state
+        let mut bad: Vec<bool> = self.accept.iter().map(|a| !a).collect();
+        loop {
+            let mut ch = false;
+            for s in 0..n {
+                if !bad[s] && self.trans[s].iter().any(|&t| bad[t]) {
+                    bad[s] = true;
+                    ch = true;
+                }
+            }
+            if !ch {
+                break;
+            }
+        }
+        bad.iter().map(|b| !b).collect()
+    }
+    pub fn with_trivial_hints(&self) -> Dfa {
+        let mut d = self.clone();
+        d.can_hint = vec![true; self.nstates()];
+        d.always_hint = vec![false; self.nstates()];
+        d
+    }
+    /// every sound hint assignment (weaken any subset of the informative hints); capped
+    pub fn all_hint_variants(&self, cap: usize) -> Vec<Dfa> {
+        let can = self.exact_can();
+        let alw = self.exact_always();
+        let mut slots: Vec<(bool, usize)> = vec![];
+        for s in 0..self.nstates() {
+            if !can[s] {
+                slots.push((true, s));
+            }
+            if alw[s] {
+                slots.push((false, s));
+            }
+        }
+        let total = 1usize << slots.len().min(20);
+        let mut out = vec![];
+        for m in 0..total.min(cap) {
+            let mut d = self.clone();
+            d.can_hint = can.clone();
+            d.always_hint = alw.clone();
+            for (i, &(is_can, s)) in slots.iter().enumerate() {
+                if m >> i & 1 == 1 {
+                    if is_can {
+                        d.can_hint[s] = true;
+                    } else {
+                        d.always_hint[s] = false;
+                    }
+                }
+            }
+            out.push(d);
+        }
+        out
+    }
+    pub fn weaken_randomly(&self, rng: &mut Rng) -> Dfa {
+        let mut d = self.clone();
+        d.can_hint = self.exact_can();
+        d.always_hint = self.exact_always();
+        for s in 0..self.nstates() {
+            if rng.chance(1, 2) {
+                d.can_hint[s] = true;
+            }
+            if rng.chance(1, 2) {
+                d.always_hint[s] = false;
+            }
+        }
+        d
+    }
+    pub fn run(&self, key: &[u8]) -> usize {
+        let mut s = 0;
+        for &b in key {
+            s = self.trans[s][self.cls[b as usize] as usize];
+        }
+        s
+    }
+    pub fn accepts(&self, key: &[u8]) -> bool {
+        self.accept[self.run(key)]
+    }
+    pub fn random(rng: &mut Rng, max_states: usize, sigma: &[u8]) -> Dfa {
+        let n = 1 + rng.usize(max_states);
+        let nclasses = 2 + rng.usize(3);
+        let trans = (0..n).map(|_| (0..nclasses).map(|_| rng.usize(n)).collect()).collect();
+        let accept = (0..n).map(|_| rng.chance(1, 3)).collect();
+        Dfa::new(nclasses, Dfa::class_table(sigma, nclasses), trans, accept)
+    }
+    /// all DFAs with exactly `n` states over 2 classes (start state 0)
+    pub fn enumerate(n: usize, sigma: &[u8]) -> Vec<Dfa> {
+        let mut out = vec![];
+        let ntrans = n * 2;
+        let mut total = 1usize;
+        for _ in 0..ntrans {
+            total *= n;
+        }
+        for t in 0..total {
+            let mut x = t;
+            let mut trans = vec![vec![0usize; 2]; n];
+            for s in 0..n {
+                for c in 0..2 {
+                    trans[s][c] = x % n;
+                    x /= n;
+                }
+            }
+            for acc in 0..(1usize << n) {
+                let accept: Vec<bool> = (0..n).map(|s| acc >> s & 1 == 1).collect();
+                out.push(Dfa::new(2, Dfa::class_table(sigma, 2), trans.clone(), accept));
+            }
+        }
+        out
+    }
+    pub fn describe(&self) -> crate::json::J {
+        use crate::json::J;
+        J::obj(vec![
+            ("states", J::U(self.nstates() as u64)),
+            ("classes", J::U(self.nclasses as u64)),
+            ("trans", J::s(format!("{:?}", self.trans))),
+            ("accept", J::s(format!("{:?}", self.accept))),
+            ("can_hint", J::s(format!("{:?}", self.can_hint))),
+            ("always_hint", J::s(format!("{:?}", self.always_hint))),
+        ])
+    }
+}
+
+impl Automaton for Dfa {
+    type State = usize;
+    fn start(&self) -> usize {
+        0
+    }
+    fn is_match(&self, s: &usize) -> bool {
+        self.accept[*s]
+    }
+    fn can_match(&self, s: &usize) -> bool {
+        self.can_hint[*s]
+    }
+    fn will_always_match(&self, s: &usize) -> bool {
+        self.always_hint[*s]
+    }
+    fn accept(&self, s: &usize, b: u8) -> usize {
+        self.trans[*s][self.cls[b as usize] as usize]
+    }
+}
